@@ -2,7 +2,9 @@ package main
 
 import (
 	"fmt"
+	"os"
 	"sort"
+	"strconv"
 	"time"
 
 	v1 "k8s.io/api/core/v1"
@@ -250,7 +252,14 @@ func init() {
 		if explore.Tier() == "thorough" {
 			D = 2
 		}
-		cfg := explore.SearchCfg{Prop: "C02", D: D, Lag: 0,
+		lag := 0
+		if v, err := strconv.Atoi(os.Getenv("VERIF_LAG")); err == nil {
+			lag = v
+		}
+		if v, err := strconv.Atoi(os.Getenv("VERIF_D")); err == nil {
+			D = v
+		}
+		cfg := explore.SearchCfg{Prop: "C02", D: D, Lag: lag,
 			Deviations: deviationsFor(devOpts{N: grids[0].N, MaxR: grids[0].MaxR, MaxSlots: 2, Edits: true, Regress: true}),
 			FaultKinds: []string{world.FErr500},
 			FaultOn:    func(c *world.Call) bool { return c.IsWrite() },
@@ -269,7 +278,7 @@ func init() {
 		rep.Extra["bottom_sccs"] = bottoms
 		rep.Extra["excused_bottom_sccs"] = excused
 		rep.Extra["deviation_bound"] = D
-		rep.Extra["cache_lag_bound"] = 0
+		rep.Extra["cache_lag_bound"] = lag
 		depthHist := map[string]int{}
 		i := 0
 		for k, n := range g.Nodes {
